@@ -49,9 +49,13 @@ def deviations(ip: LinearNDInterpolator) -> list[np.ndarray]:
         The deviation per triangle.
     """
     values = ip.values / (np.ptp(ip.values, axis=0).max() or 1)
-    gradients = interpolate.interpnd.estimate_gradients_2d_global(
-        ip.tri, values, tol=1e-6
-    )
+    try:
+        estimate_gradients = interpolate.interpnd.estimate_gradients_2d_global
+    except AttributeError:  # scipy >= 1.17: the public alias module lost this name
+        from scipy.interpolate._interpnd import (
+            estimate_gradients_2d_global as estimate_gradients,
+        )
+    gradients = estimate_gradients(ip.tri, values, tol=1e-6)
 
     simplices = ip.tri.simplices
     p = ip.tri.points[simplices]
